@@ -11,7 +11,7 @@
   binary64 correspondence and by the ℚ correspondence on the number of points), read over an
   arbitrary linear ordered field, for every duration `D > 0`, every `dt > 0`, every list of
   requested times in `[0,1]` (any length) and every merge tolerance `0 ≤ relTol < 1` (the code
-  uses `1e-12`), with `fl` any function that is the floor at `D/dt`.
+  uses `2e-12`), with `fl` any function that is the floor at `D/dt`.
 
   Proved, at full strength (exact arithmetic):
     * `strictly_increasing`, `first_zero`, `last_duration`;
